@@ -271,6 +271,8 @@ func c15Run(r *ev.Run) {
 		{3, 3, 1, []uint16{lo, lo + 1, mid, hi}, 5},
 		{5, 5, 2, []uint16{lo, mid, hi}, 4},
 		{4, 3, 1, []uint16{lo, mid, hi}, 4},
+		{3, 4, 1, []uint16{lo, mid, hi}, 4}, // two interior rows under a border: rows can change independently
+		{4, 4, 1, []uint16{lo, hi}, 3},
 		{2, 2, 0, []uint16{lo, hi}, 3},
 	}
 	if r.Thorough() {
@@ -279,10 +281,12 @@ func c15Run(r *ev.Run) {
 			{5, 5, 2, []uint16{lo, lo + 1, mid, hi}, 5},
 			{4, 3, 1, []uint16{lo, lo + 1, mid, hi}, 4},
 			{6, 5, 2, []uint16{lo, mid, hi}, 4},
+			{3, 4, 1, []uint16{lo, lo + 1, mid, hi}, 4},
+			{4, 4, 1, []uint16{lo, mid, hi}, 3},
 			{2, 2, 0, []uint16{lo, mid, hi}, 3},
 		}
 	}
-	r.Rule = "real detector with dynamic threshold: every stream of the stated length over per-pixel alphabets {lo, lo+1, mid, hi} (scene mean below, inside, above [temp-thresh-min,max] = [1200,1400]) for interiors of 1, 2 and 4 pixels (edge-pixels 0,1,2), with at most one FFC period of any length and at most one camera reset at any position; (min,max) in {unset,set}^2 plus min==max (threshold pinned inside / at the bottom of the scene range); preview frames 0,1,2. Oracle after every frame (deep layer) and at every sink StartRecording (API level, processor with min=max=0 so every motion frame starts a recording): background <= frame on the interior, border replicates nearest interior pixel, re-seeded after FFC/reset, threshold either unchanged or the bounded mean (+-1 float truncation), stored background/threshold = the ones in force (also when a camera reset arrives during a recording whose StopRecording reports an error). Non-trivial = stream in which the threshold was recomputed."
+	r.Rule = "real detector with dynamic threshold: every stream of the stated length over per-pixel alphabets {lo, lo+1, mid, hi} (scene mean below, inside, above [temp-thresh-min,max] = [1200,1400]) for interiors of 1, 2 and 4 pixels in one or two rows (edge-pixels 0,1,2), with at most one FFC period of any length and at most one camera reset at any position; (min,max) in {unset,set}^2 plus min==max (threshold pinned inside / at the bottom of the scene range); preview frames 0,1,2. Oracle after every frame (deep layer) and at every sink StartRecording (API level, processor with min=max=0 so every motion frame starts a recording): background <= frame on the interior, border replicates nearest interior pixel, re-seeded after FFC/reset, threshold either unchanged or the bounded mean (+-1 float truncation), stored background/threshold = the ones in force (also when a camera reset arrives during a recording whose StopRecording reports an error). Non-trivial = stream in which the threshold was recomputed."
 	c15APIEverywhere = r.Thorough()
 	r.Bounds["api_level_on"] = map[bool]string{true: "all shapes", false: "shapes up to 3x3 (deep layer on all)"}[c15APIEverywhere]
 	r.Assumptions = []string{"deep layer reads detector.background / tempThresh by name; API layer needs no private access"}
